@@ -59,6 +59,13 @@ def regimenToEvent (dose start duration : Rat) (period : Option Rat) (num : Opti
   if duration = 0 then .error .zeroDivision
   else mkEvent (dose / duration) start duration pn.1 pn.2
 
+/-- `ReducedMechanisticModel.set_dosing_regimen(dose, start, duration, period, num)`: all five
+    arguments are handed on to the wrapped model (also `PredictiveModel.set_dosing_regimen` after
+    `fix_parameters`) -/
+def reducedRegimenToEvent (dose start duration : Rat) (period : Option Rat) (num : Option Int) :
+    Except Err Event :=
+  regimenToEvent dose start duration period num
+
 /-! ## what the pacing variable does -/
 
 /-- start of the `k`-th occurrence -/
